@@ -1,4 +1,4 @@
-import TriompheModel.Model.Ops
+import TriompheModel.Proofs.HistLen
 /-!
 # C10 — a ThinArc is an exact one-word stand-in for the fat Arc
 
@@ -60,6 +60,21 @@ theorem C10_thin_clone_drop (m : Mem) (t : HV) :
   simp [ThinArc.clone, ThinArc.drop, Arc.clone, Arc.drop, ThinArc.thick]
 
 example : ThinWF ⟨.thin, .hwl, 3, 0, 0⟩ := ⟨rfl, rfl, rfl⟩
+
+/-- **the length invariant.**  For every ThinArc (or raw thin pointer) obtainable through ANY
+history of the op language — i.e. through the safe API, incl. `with_arc_mut` callbacks that clone,
+mutate, replace or panic, lying iterators, refused `into_thin`s — the length stored in the
+allocation equals the real slice length. -/
+theorem C10_len_invariant (ops : List Op) (i : Nat) (h : HV) (hl : lookup (run ops) i = some h)
+    (hk : h.kind = .thin ∨ h.kind = .rawThin) :
+    ∃ k, (run ops).mem.blocks[h.blk]? = some k ∧ k.recLen = some k.elems.length :=
+  thin_len_correct ops i h hl hk
+
+/-- … and every fat slice handle's pointer metadata is the real length too -/
+theorem C10_fat_len (ops : List Op) (i : Nat) (h : HV) (hl : lookup (run ops) i = some h) :
+    ∃ k, (run ops).mem.blocks[h.blk]? = some k ∧ viewLen (run ops).mem h = k.elems.length :=
+  let ⟨k, hk, hv, _⟩ := (leninv_run ops).viewLen_eq hl
+  ⟨k, hk, hv⟩
 
 end C10
 end M1
